@@ -1000,11 +1000,12 @@ fn update_flags_e2e(prop: &str, idx: u64, root: &Path) -> CaseRec {
 /// code line), an expression that ends in an empty continuation line, an empty expression. The document either passes
 /// (and must stay as it is) or has a stale second test that forces the rewriting of the whole file. Afterwards the
 /// shell expressions are the same, `scrut test` passes, a second update changes nothing.
-/// idx: shape (5) x format (2) x stale neighbour (2)
+/// idx: shape (6) x format (2) x stale neighbour (2); shape 5 is stale itself: a stale first expectation in front of a
+/// kept one that starts like a continuation line
 fn expression_shapes_e2e(prop: &str, idx: u64, root: &Path) -> CaseRec {
-    let shape = idx % 5;
-    let cram = (idx / 5) % 2 == 1;
-    let stale = (idx / 10) % 2 == 1;
+    let shape = idx % 6;
+    let cram = (idx / 6) % 2 == 1;
+    let stale = (idx / 12) % 2 == 1;
     let dir = fresh_dir(root, format!("s{idx}"));
     // (command lines, expectation lines incl. exit code) of the test under observation
     let (cmd, body): (Vec<&str>, Vec<&str>) = match shape {
@@ -1012,7 +1013,8 @@ fn expression_shapes_e2e(prop: &str, idx: u64, root: &Path) -> CaseRec {
         1 => (vec!["$ echo '> x'"], vec!["[0]", "> x"]),
         2 => (vec!["$ echo a", "> "], vec!["a"]),
         3 => (vec!["$ echo '> x'; echo y; (exit 2)"], vec!["[2]", "> x", "y"]),
-        _ => (vec!["$ echo '> x'; echo '> z'"], vec!["[0]", "> x", "> z"]),
+        4 => (vec!["$ echo '> x'; echo '> z'"], vec!["[0]", "> x", "> z"]),
+        _ => (vec!["$ echo '> x'; echo last"], vec!["stale line", "> x", "last"]),
     };
     let ind = if cram { "  " } else { "" };
     let block = |cmd: &[&str], body: &[&str]| -> String {
@@ -1038,7 +1040,7 @@ fn expression_shapes_e2e(prop: &str, idx: u64, root: &Path) -> CaseRec {
     if ran.crashed() || ran.code != Some(0) {
         fails.push(("C10:cli-update-error".to_string(), describe("update failed")));
     } else {
-        if !stale && after != doc {
+        if !stale && shape != 5 && after != doc {
             fails.push(("C10:cli-update-passing-document-rewritten".to_string(), describe("every test passes, the document must stay as it is")));
         }
         let now = file_parse(fmt, &after).map(|t| t.iter().map(|t| t.shell_expression.clone()).collect::<Vec<_>>());
@@ -1082,7 +1084,7 @@ pub fn run(ctx: &Ctx, prop: &str) {
     }
     let root = tmproot("shapes");
     std::fs::create_dir_all(&root).unwrap();
-    ctx.run_stream("cli-update-expression-shapes-e2e-exhaustive", 5 * 2 * 2, true, |idx| Some(expression_shapes_e2e(prop, idx, &root)));
+    ctx.run_stream("cli-update-expression-shapes-e2e-exhaustive", 6 * 2 * 2, true, |idx| Some(expression_shapes_e2e(prop, idx, &root)));
     let _ = std::fs::remove_dir_all(&root);
     let root = tmproot("update");
     std::fs::create_dir_all(&root).unwrap();
